@@ -82,6 +82,25 @@ def upvars_of(F, path):
     return cs[1] if cs else ()
 
 
+def canon_bool_atom(s, val):
+    """(rendered boolean expression, truth value 0/1) in positive form: only `Eq` and `Lt` atoms remain
+    (`a != b` is `not a == b`, `a <= b` is `not b < a`, `!x` is `not x`), so `if a != b {A} else {B}` and
+    `if a == b {B} else {A}` give the same conditions.  `>`/`>=` are already turned into `<`/`<=` by shape.pp."""
+    for _ in range(6):
+        if s.startswith("Ne(") and s.endswith(")"):
+            s, val = "Eq(" + s[3:], 1 - val
+        elif s.startswith("Le(") and s.endswith(")"):
+            parts = _split_top(s[3:-1])
+            if len(parts) != 2:
+                break
+            s, val = "Lt(%s, %s)" % (parts[1], parts[0]), 1 - val
+        elif s.startswith("Not(") and s.endswith(")") and len(_split_top(s[4:-1])) == 1:
+            s, val = s[4:-1], 1 - val
+        else:
+            break
+    return s, val
+
+
 def _cond(ex, lo, hi, upvars, arg_names):
     ex = clean(shape.subst_upvars(ex, upvars))
     u = ex
@@ -91,6 +110,9 @@ def _cond(ex, lo, hi, upvars, arg_names):
             x = pp_x(inner[2][0], arg_names) if inner[2] else "?"
             return ("ok(%s)" if (lo, hi) == (0, 0) else "fail(%s)" if (lo, hi) == (1, 1) else "branch(%s) in [%s,%s]" % ("%s", lo, hi)) % x
     s = pp_x(ex, arg_names)
+    if (lo, hi) in ((0, 0), (1, 1)) and s.startswith(("Ne(", "Le(", "Not(")):
+        s, v = canon_bool_atom(s, lo)
+        return "%s in [%s,%s]" % (s, v, v)
     return "%s in [%s,%s]" % (s, lo, hi)
 
 
@@ -122,6 +144,17 @@ def render(cs):
     return " ; ".join(("[%s] => %s" % (" & ".join(c), v)) if c else v for c, v in cs)
 
 
+def _or_verified(F, path, ok, got):
+    """a normal form that is not in the rule's accepted list passes when spec/equivalent_forms.json lists it (full form:
+    return cases + effect skeleton) as a hand-verified equivalent spelling of this function"""
+    if ok:
+        return ok, got
+    e = is_verified_equivalent(F, path)
+    if e:
+        return True, "%s  [verified-equivalent spelling %s: %s]" % (got[:200], e.get("hash"), e.get("why", ""))
+    return ok, got
+
+
 def expect(ck, F, rule, key, path, accepted, what, file="src/asm.rs"):
     """obligation: the normal form of `path` is one of `accepted` (strings as produced by render)"""
     b = F.bodies.get(path)
@@ -129,6 +162,7 @@ def expect(ck, F, rule, key, path, accepted, what, file="src/asm.rs"):
         return False
     got = render(cases(F, path))
     ok = got in accepted
+    ok, got = _or_verified(F, path, ok, got)
     ck.ob(rule, key, ok, "%s; normal form: %s%s" % (what, got, "" if ok else "  (accepted: %s)" % " | ".join(accepted)), "%s:%s" % (file, b.line))
     return ok
 
@@ -482,6 +516,7 @@ def expect_x(ck, F, rule, key, path, accepted, what, file="src/asm.rs"):
         return False
     got = render(cases_x(F, path))
     ok = got in accepted
+    ok, got = _or_verified(F, path, ok, got)
     ck.ob(rule, key, ok, "%s; normal form: %s%s" % (what, got, "" if ok else "  (accepted: %s)" % " | ".join(accepted)), "%s:%s" % (file, b.line))
     return ok
 
@@ -564,12 +599,40 @@ def expect_deep(ck, F, rule, key, path, accepted, what, file="src/asm.rs", abbr=
         got = norm(got)
         accepted = [norm(a) for a in accepted]
     ok = got in accepted
+    ok, got = _or_verified(F, path, ok, got)
     ck.ob(rule, key, ok, "%s; normal form: %s%s" % (what, got, "" if ok else "  (accepted: %s)" % " | ".join(accepted)), "%s:%s" % (file, b.line))
     return ok
 
 
 # ---------------------------------------------------------------------------------------------
-def path_conditions(body, target, want, limit=4000, track_consts=False):
+def resolve_labels(pc):
+    """{discriminant: ('is', value) | ('not', frozenset of excluded values)} for one path of path_conditions(else_sets=True),
+    or None when the path is infeasible (one discriminant required to have two values, or a value it was excluded from)"""
+    out = {}
+    for d, l in pc:
+        cur = out.get(d)
+        if l.startswith("!{"):
+            ex = frozenset(x for x in l[2:-1].split(",") if x)
+            if cur is None:
+                out[d] = ("not", ex)
+            elif cur[0] == "not":
+                out[d] = ("not", cur[1] | ex)
+            elif cur[1] in ex:
+                return None
+        else:
+            if cur is None:
+                out[d] = ("is", l)
+            elif cur[0] == "is":
+                if cur[1] != l:
+                    return None
+            else:
+                if l in cur[1]:
+                    return None
+                out[d] = ("is", l)
+    return out
+
+
+def path_conditions(body, target, want, limit=4000, track_consts=False, else_sets=False):
     """Decision combinations under which `target` is reached: all acyclic paths from the entry are walked;
     at every switch whose (position-aware) discriminant rendering satisfies want(str) the taken edge label is
     recorded.  Returns a set of frozensets {(discriminant, label)}; None if the path limit is exceeded.
@@ -615,13 +678,13 @@ def path_conditions(body, target, want, limit=4000, track_consts=False):
     def edges_of(bi, env):
         t = body.blocks[bi]["term"]
         if t["k"] == "switch":
-            edges = [(str(v), tb) for v, tb in t["values"]] + [("else", t["otherwise"])]
-            if len(edges) == 2 and edges[1][0] == "else" and t.get("discr_ty") == "bool":
+            edges = [(str(v), tb) for v, tb in t["values"]] + [("!{%s}" % ",".join(sorted(str(v) for v, _ in t["values"])) if else_sets else "else", t["otherwise"])]
+            if len(edges) == 2 and edges[1][0].startswith(("else", "!{")) and t.get("discr_ty") == "bool":
                 edges = [edges[0], ("1" if edges[0][0] == "0" else "0", edges[1][1])]
             d = t["discr"]
             if env is not None and d.get("k") in ("copy", "move") and not d["p"]["proj"] and env.get(d["p"]["l"]) is not None:
                 v = str(env[d["p"]["l"]])
-                taken = [e for e in edges if e[0] == v] or [e for e in edges if e[0] == "else"]
+                taken = [e for e in edges if e[0] == v] or [e for e in edges if e[0].startswith(("else", "!{"))]
                 return taken[:1]
             return edges
         return [(None, s2) for s2 in body.succs(bi)]
@@ -633,7 +696,19 @@ def path_conditions(body, target, want, limit=4000, track_consts=False):
             return memo[bi]
         if env is not None:
             env = dict(env)
-            env.update(consts_of(bi))
+            for st_ in body.blocks[bi]["stmts"]:
+                if st_["k"] == "assign" and not st_["p"]["proj"]:
+                    rv = st_["rv"]
+                    val = None
+                    if rv["k"] == "use" and rv["op"].get("k") == "const" and "val" in rv["op"]:
+                        val = rv["op"]["val"]
+                    elif rv["k"] == "use" and rv["op"].get("k") in ("copy", "move") and not rv["op"]["p"]["proj"]:
+                        val = env.get(rv["op"]["p"]["l"])       # a copy of a local whose constant value is known on this path
+                    elif rv["k"] == "un" and rv.get("op") == "Not" and rv["x"].get("k") in ("copy", "move") and not rv["x"]["p"]["proj"]:
+                        v0 = env.get(rv["x"]["p"]["l"])
+                        if v0 in (0, 1, True, False):
+                            val = 1 - int(v0)
+                    env[st_["p"]["l"]] = val
         res = set()
         d = discr(bi)
         for lab, nb in edges_of(bi, env):
@@ -642,8 +717,12 @@ def path_conditions(body, target, want, limit=4000, track_consts=False):
             count[0] += 1
             if count[0] > limit:
                 raise OverflowError
+            dl = (d, lab)
+            if d is not None and lab in ("0", "1") and d.startswith(("Ne(", "Le(", "Not(")):
+                cs, cv = canon_bool_atom(d, int(lab))
+                dl = (cs, str(cv))
             for tail in walk(nb, onpath | {nb}, env):
-                res.add(tail | {(d, lab)} if d is not None and lab is not None else tail)
+                res.add(tail | {dl} if d is not None and lab is not None else tail)
         if env is None:
             memo[bi] = res
         return res
@@ -651,3 +730,196 @@ def path_conditions(body, target, want, limit=4000, track_consts=False):
         return walk(0, frozenset([0]), {} if track_consts else None)
     except OverflowError:
         return None
+
+
+# ---------------------------------------------------------------------------------------------
+# Effect skeleton + table of hand-verified equivalent spellings
+SKELETON_TRIVIAL = {"deref", "deref_mut", "borrow", "borrow_mut", "as_ref", "as_mut", "into_iter", "branch", "from_residual",
+                    "from_output", "clone", "iter", "iter_mut", "as_str", "as_slice", "new_const", "new_v1", "none",
+                    "Arguments::new_const", "Arguments::new_v1", "Argument::new_display", "Argument::new_debug"}
+
+
+def _loop_headers(body):
+    """{header block: set of blocks of the natural loop} (back edge u->h with h dominating u)"""
+    dom = body.dominators()
+    preds = body.preds()
+    loops = {}
+    for u in dom:
+        for h in body.succs(u):
+            if h in dom.get(u, ()):         # back edge
+                blk = loops.setdefault(h, {h})
+                st = [u]
+                while st:
+                    x = st.pop()
+                    if x in blk:
+                        continue
+                    blk.add(x)
+                    st.extend(p for p in preds[x] if p in dom)
+    return loops
+
+
+def _rpo(body):
+    seen, order = set(), []
+
+    def dfs(b):
+        st = [(b, iter(body.succs(b)))]
+        seen.add(b)
+        while st:
+            x, it = st[-1]
+            nxt = next(it, None)
+            if nxt is None:
+                order.append(x)
+                st.pop()
+            elif nxt not in seen:
+                seen.add(nxt)
+                st.append((nxt, iter(body.succs(nxt))))
+    dfs(0)
+    return list(reversed(order))
+
+
+def _edge_universe(body):
+    """{rendered discriminant: set of edge labels} for the label universe of each switch"""
+    return None
+
+
+def complete_conds(body, bi, limit=3000):
+    """The condition under which block `bi` is entered, as a reduced DNF over ALL switch decisions on the acyclic paths
+    from the entry (not only the dominating ones, so `a || b`, or-patterns and `!= k` edges are not lost).  Rendered as
+    `c1 & c2 | c3`; `~dom:` prefix when the path limit is exceeded and only dominating conditions could be used."""
+    uni = {}
+    xb = XB(body)
+    for b2, t in body.terms("switch"):
+        d = pp_x(xb.expr_of_operand(t["discr"], 12, (b2, "term")))
+        labs = set(str(v) for v, _ in t["values"]) | {"!{%s}" % ",".join(sorted(str(v) for v, _ in t["values"]))}
+        if len(labs) == 2 and t.get("discr_ty") == "bool":
+            labs = {"0", "1"}
+        if d.startswith(("Ne(", "Le(", "Not(")):
+            d = canon_bool_atom(d, 0)[0]
+        uni.setdefault(d, set()).update(labs)
+    pcs = path_conditions(body, bi, lambda x: True, limit=limit, track_consts=True, else_sets=True)
+    if pcs is None:
+        return "~dom:" + " & ".join(sorted(set(_cond(ex, lo, hi, (), None) for ex, lo, hi in panics.dominating_conditions(body, bi))))
+    terms = set(frozenset(pc) for pc in pcs)
+    # drop infeasible conjunctions (one discriminant with two values, or with a value it is excluded from);
+    # several decisions on one discriminant are folded into one
+    folded = set()
+    for t in terms:
+        r = resolve_labels(t)
+        if r is not None:
+            folded.add(frozenset((d, v[1] if v[0] == "is" else "!{%s}" % ",".join(sorted(v[1]))) for d, v in r.items()))
+    terms = folded
+    changed = True
+    while changed:
+        changed = False
+        # absorption: X | X&Y = X
+        for a in list(terms):
+            if any(b < a for b in terms):
+                terms.discard(a)
+                changed = True
+        # merging: X&(D=l1) | X&(D=l2) | ... covering every label of D  =  X
+        byrest = {}
+        for t in terms:
+            for (d, l) in t:
+                byrest.setdefault((t - {(d, l)}, d), set()).add(l)
+        for (rest, d), labs in byrest.items():
+            if len(labs) > 1 and labs >= uni.get(d, {"?"}):
+                for l in labs:
+                    terms.discard(rest | {(d, l)})
+                terms.add(rest)
+                changed = True
+                break
+    def atom(d, l):
+        if l.startswith("!{"):
+            return "%s!in%s" % (d, l[1:])
+        return "%s=%s" % (d, l)
+    return " | ".join(sorted(" & ".join(atom(d, l) for d, l in sorted(t)) for t in terms))
+
+
+def skeleton(F, path, depth=0):
+    """Every call and every store through a pointer of a body, in reverse post-order, with the conditions that
+    dominate it and its loop nesting (`@` per enclosing loop); closures inlined.  Together with the return cases this
+    pins what a function with loops or side effects does, without local names, numbering or layout."""
+    b = F.bodies.get(path)
+    if b is None:
+        return "<missing %s>" % path
+    xb = XB(b)
+    up = upvars_of(F, path)
+    loops = _loop_headers(b)
+    out = []
+    for bi in _rpo(b):
+        blk = b.blocks[bi]
+        nest = "@" * sum(1 for h, s in loops.items() if bi in s)
+        conds = None
+
+        def cs():
+            return complete_conds(b, bi)
+        for si, s in enumerate(blk["stmts"]):
+            if s["k"] == "assign" and s["p"]["l"] == 0 and not s["p"]["proj"]:
+                if conds is None:
+                    conds = cs()
+                out.append("%s[%s] ret := %s" % (nest, conds, pp_x(shape.subst_upvars(xb.expr_of_rvalue(s["rv"], 10, (bi, si)), up))))
+            elif s["k"] == "assign" and s["p"]["proj"] and (s["p"]["proj"][0] == "deref" or b.is_arg(s["p"]["l"])):
+                if conds is None:
+                    conds = cs()
+                out.append("%s[%s] %s := %s" % (nest, conds, pp_x(shape.subst_upvars(xb.expr_of_place(s["p"], 8, (bi, si)), up)), pp_x(shape.subst_upvars(xb.expr_of_rvalue(s["rv"], 10, (bi, si)), up))))
+        t = blk["term"]
+        if t["k"] == "call":
+            f = t["func"]
+            callee = ((f.get("resolved") or {}).get("path") or f.get("fn")) if f.get("k") == "const" else None
+            name = shape.short_callee(callee) if callee else "<indirect>"
+            if name in SKELETON_TRIVIAL or name.rsplit("::", 1)[-1] in SKELETON_TRIVIAL:
+                continue
+            if conds is None:
+                conds = cs()
+            args = ", ".join(pp_x(shape.subst_upvars(xb.expr_of_operand(a, 8, (bi, "term")), up)) for a in t.get("args", []))
+            dst = t.get("dest")
+            out.append("%s[%s] %s%s(%s)" % (nest, conds, "ret := " if dst and dst["l"] == 0 and not dst["proj"] else "", name, args))
+    s = " ;; ".join(out)
+    if depth > 3:
+        return anon_locals(s)
+
+    def sub(m):
+        child = "%s::{closure#%s}" % (path, m.group(1))
+        if child not in F.bodies:
+            return m.group(0)
+        return "λ[" + deep(F, child, True, depth + 1) + " || " + skeleton(F, child, depth + 1) + "]"
+    return anon_locals(re.sub(r"\{closure#(\d+)\}", sub, s))
+
+
+_ALT = None
+
+
+def _alt_table():
+    global _ALT
+    if _ALT is None:
+        import json
+        p = os.path.join(os.path.dirname(os.path.dirname(os.path.dirname(os.path.abspath(__file__)))), "spec", "equivalent_forms.json")
+        try:
+            with open(p) as fh:
+                _ALT = json.load(fh)
+        except FileNotFoundError:
+            _ALT = {}
+    return _ALT
+
+
+def full_form(F, path):
+    """return cases (closures inlined) + effect skeleton: the complete normal form used for the table of equivalent spellings"""
+    return anon_locals(deep(F, path)) + " || " + skeleton(F, path)
+
+
+def form_hash(s):
+    import hashlib
+    return hashlib.sha256(s.encode()).hexdigest()[:20]
+
+
+def is_verified_equivalent(F, path):
+    """spec/equivalent_forms.json lists, per function, normal forms (by hash, with the reason) that were read and
+    confirmed to compute the same function with the same effects as the form at the pinned commit"""
+    ent = _alt_table().get(path) or []
+    if not ent:
+        return None
+    h = form_hash(full_form(F, path))
+    for e in ent:
+        if e.get("hash") == h:
+            return e
+    return None
